@@ -115,8 +115,9 @@ inline long dy(double xc){ return std::lround(xc * 1048576.0); } // dyadic key (
 // Works on canonical coordinates in [-1,1] encoded as dyadic keys (x * 2^20).
 struct RefLocal {
     TypeOneDRule rule; int order;
-    static const long ONE = 1048576;
-    RefLocal(TypeOneDRule r, int ord) : rule(r), order(ord){}
+    enum : long { ONE = 1048576 };
+    bool tree_only; // true: direct kid/parent tree used by refinement (semilocalp then behaves like localp); false: full ancestry incl. step-parents
+    RefLocal(TypeOneDRule r, int ord, bool tree = false) : rule((r == rule_semilocalp && ord < 2) ? rule_localp : r), order(ord), tree_only(tree){}
     // level of a node, -1 if not a node of the rule
     int level(long k) const{
         if (k < -ONE || k > ONE) return -1;
@@ -141,7 +142,7 @@ struct RefLocal {
         int l = level(k);
         if (rule == rule_localp0) return ONE >> l;
         if (rule == rule_localpb){ if (l == 0) return -1; return ONE >> (l - 1); }
-        if (rule == rule_semilocalp && l == 1) return -1;     // the two boundary functions are global quadratics
+        if (rule == rule_semilocalp && l == 1 && !tree_only) return -1;     // the two boundary functions are global quadratics
         if (l == 0) return ONE; if (l == 1) return ONE;           // localp: hat functions on [-1,1] / [-2,0],[0,2]
         return ONE >> (l - 1);
     }
